@@ -91,6 +91,10 @@ theorem inv_run {κ : Nat → String} {s : State} (h : InvK κ s) (hb : Boundary
     apply post_map_good
     simp only [Op.idsOk, decide_eq_true_eq] at hids
     exact Post.mono (inv_mkSys h o box pbc sy ms hids) (fun _ _ hq => hq.good)
+  | mkSysX o box pbc sy ms sc cp =>
+    apply post_map_good
+    simp only [Op.idsOk, decide_eq_true_eq] at hids
+    exact inv_mkSysX h o box pbc sy ms sc cp hids
   | symbolsGet i =>
     apply post_map_good
     exact Post.mono (inv_symbolsGet h i) (fun _ _ hq => hq.1.1.good)
